@@ -1766,3 +1766,11 @@ Theorem rebuild_current_precedence : forall tree mo feds,
 Proof.
   intros tree mo feds Hwf Hmo. unfold rebuild_current. apply rebuild_precedence; auto. apply sorted_hosts_ok.
 Qed.
+
+(* the boolean test of the path-type order is sound *)
+Lemma permittedb_sound : forall mo, permittedb mo = true -> permitted mo.
+Proof.
+  intros mo. destruct mo as [|a [|b [|c [|d [|e r]]]]]; try discriminate.
+  destruct a, b, c, d; try discriminate; intros _;
+    (split; [repeat constructor; cbn; intuition congruence | cbn; intuition]).
+Qed.
